@@ -22,9 +22,9 @@ EXTRA_IMPORTS = dispenv.DISP_IMPORTS + 'From PJ Require Import Model.Cache.\n'
 RULE = ('(a) histories of length 1..2 (quick) / 1..3 (thorough) over a request corpus followed by a probe, on the standard configuration '
         '(compared with the probe on a fresh dispatcher AND with the stateless dispatcher model) and on a rich configuration - the same function '
         'registered twice with different context designations, parameterless methods with and without a context, two same-named '
-        'functions under one PydanticValidator, a JsonSchemaValidator, a class-based view with context - where every ordered pair / triple '
+        'functions under one PydanticValidator, a JsonSchemaValidator, a class-based view with context, methods that raise, generic and per-code error handlers - where every ordered pair / triple '
         'of requests is replayed; both dispatchers. (b) N in {1, 10, 300} (quick) / {1, 10, 1000} (thorough) dispatches with a fresh '
-        'context object each, for function methods, view methods and each validator: growth of the signature / schema memo tables and '
+        'context object each, for function methods, view methods, each validator and FAILING requests (method raises / protocol error / unknown method / schema violation): growth of the signature / schema memo tables and '
         'weak references to the contexts after gc.collect(). (c) thread pools of 2, 8, 16 threads serving an interleaved corpus vs serving '
         'it sequentially (a test). distinct = distinct case; every case is non-trivial')
 EXHAUSTIVE = {'quick': False, 'thorough': False}
@@ -40,7 +40,17 @@ class Ctx:
 
 def rich_dispatcher(is_async):
     """A fresh dispatcher with fresh functions and fresh validator instances."""
-    d = (AsyncDispatcher if is_async else Dispatcher)()
+    # error handlers: a generic one and one per code, in lists the dispatcher must only read
+    def mk_eh(data):
+        def run(request, context, error):
+            return error if data is None else type(error)(code=error.code, message=error.message, data=data)
+        if is_async:
+            async def eh(request, context, error):
+                return run(request, context, error)
+            return eh
+        return run
+    d = (AsyncDispatcher if is_async else Dispatcher)(
+        error_handlers={None: [mk_eh(None)], -32601: [mk_eh('U:nf')], -32602: [mk_eh('U:ip')], 7: [mk_eh('U:seven')]})
     pdv = pd_validator.PydanticValidator()
     jsv = js_validator.JsonSchemaValidator()
 
@@ -52,6 +62,12 @@ def rich_dispatcher(is_async):
 
     def ping():
         return 'pong'
+
+    def boom(ctx, a=0):
+        raise ValueError('S3CR3T')
+
+    def perr():
+        raise pjrpc.exceptions.JsonRpcError(code=7, message='seven')
 
     def count():
         return 0
@@ -76,6 +92,8 @@ def rich_dispatcher(is_async):
     d.add(get_user, name='internal.get_user')
     d.add(whoami, context='ctx')
     d.add(ping)
+    d.add(boom, context='ctx')
+    d.add(perr)
     d.add(count)
     d.add(mk_get('int'), name='user.get')
     d.add(mk_get('str'), name='doc.get')
@@ -94,6 +112,7 @@ RICH_CORPUS = [
     {'method': 'doc.get', 'params': {'id': 'a7'}}, {'method': 'doc.get', 'params': [7]},
     {'method': 'sized', 'params': {'n': 1}}, {'method': 'sized', 'params': {'n': -1}}, {'method': 'sized', 'params': [1, 'x']},
     {'method': 'v.show', 'params': [1]}, {'method': 'v.show'}, {'method': 'nosuch'}, {'method': 'ping', 'params': {}},
+    {'method': 'boom'}, {'method': 'boom', 'params': [1]}, {'method': 'perr'}, {'method': 'perr', 'params': [1]},
 ]
 
 
@@ -126,7 +145,7 @@ def generate(seed, tier):
     triples = list(itertools.product(range(n), repeat=3))
     for a, b, p in rnd.sample(triples, 600 if tier == 'quick' else 4000):
         cases.append({'t': 'rich', 'history': [a, b], 'probe': p, 'async': rnd.random() < 0.5})
-    for kind in ('function', 'view', 'jsonschema', 'pydantic', 'noparams'):
+    for kind in ('function', 'view', 'jsonschema', 'pydantic', 'noparams', 'failing'):
         for N in (1, 10, 300 if tier == 'quick' else 1000):
             for is_async in (False, True):
                 cases.append({'t': 'mem', 'kind': kind, 'n': N, 'async': is_async})
@@ -143,11 +162,15 @@ def dispatch(d, is_async, text, ctx=None):
 MEM_REQ = {
     'function': ['public.get_user', 'whoami'], 'view': ['v.show'], 'jsonschema': ['sized'], 'pydantic': ['user.get', 'doc.get'],
     'noparams': ['whoami', 'ping'],
+    # requests that FAIL (method raises, protocol error, unknown method, schema violation): the error path keeps nothing either
+    'failing': ['boom', 'perr', 'nosuch', 'sized!'],
 }
-MEM_PARAMS = {'public.get_user': [1], 'whoami': None, 'v.show': [1], 'sized': {'n': 1}, 'user.get': [1], 'doc.get': ['x'], 'ping': None}
+MEM_PARAMS = {'public.get_user': [1], 'whoami': None, 'v.show': [1], 'sized': {'n': 1}, 'user.get': [1], 'doc.get': ['x'], 'ping': None,
+              'boom': [1], 'perr': None, 'nosuch': None, 'sized!': {'n': -1}}
 # (validator id, function id, excluded names, bound) of each registration, for the cache model
 MEM_KEYS = {'public.get_user': (0, 1, ['request'], False), 'whoami': (0, 2, ['ctx'], False), 'v.show': (0, 3, [], True),
-            'sized': (1, 4, [], False), 'user.get': (2, 5, [], False), 'doc.get': (2, 6, [], False), 'ping': (0, 7, [], False)}
+            'sized': (1, 4, [], False), 'user.get': (2, 5, [], False), 'doc.get': (2, 6, [], False), 'ping': (0, 7, [], False),
+            'boom': (0, 8, ['ctx'], False), 'perr': (0, 9, [], False), 'nosuch': None, 'sized!': (1, 4, [], False)}
 
 
 def observe(case):
@@ -192,13 +215,14 @@ def observe(case):
             name = names[i % len(names)]
             c = Ctx(i)
             refs.append(weakref.ref(c))
-            body = {'jsonrpc': '2.0', 'id': i, 'method': name}
+            body = {'jsonrpc': '2.0', 'id': i, 'method': name.rstrip('!')}
             if MEM_PARAMS[name] is not None:
                 body['params'] = MEM_PARAMS[name]
             r = dispatch(d, case['async'], json.dumps(body), c)
-            if r is None or 'result' not in r:
+            if r is None or (('result' in r) == (case['kind'] == 'failing')):
                 bad += 1
-            keys.append(MEM_KEYS[name])
+            if MEM_KEYS[name] is not None:
+                keys.append(MEM_KEYS[name])
             if name in ('user.get', 'doc.get'):
                 # PydanticValidator.build_validation_schema memoises one entry per distinct signature as well
                 k = MEM_KEYS[name]
